@@ -510,6 +510,11 @@ func compareTwo(cm *comparer, class string, ids []string, a, b obs.Observation, 
 				continue
 			}
 			if d := listDiff(sec.a[n], sec.b[n]); d != "" {
+				if sec.name == "refs" || sec.name == "rels" {
+					// name the referrers one world lacks as direct (n is one of their points/paths/members) or
+					// transitive (marked ~): a world that loses a DIRECT referrer is a different finding
+					d = referrerDiff(n, sec.a[n], sec.b[n], a, b)
+				}
 				if sec.name == "traverse" {
 					d = "differs"
 					for _, f := range a.Features {
@@ -536,4 +541,78 @@ func compareTwo(cm *comparer, class string, ids []string, a, b obs.Observation, 
 		}
 		add("problems", strings.Join(fields, "_"), p)
 	}
+}
+
+// referrerDiff is listDiff for referrer lists, with every name classified by how it refers to n.
+func referrerDiff(n string, exp, got []string, a, b obs.Observation) string {
+	direct := func(x string) bool {
+		f, ok := a.Features[x]
+		if !ok || f.Kind == "absent" {
+			f = b.Features[x]
+		}
+		for _, p := range f.Pts {
+			if p == n {
+				return true
+			}
+		}
+		for _, poly := range f.Polys {
+			for _, p := range poly {
+				if p == n {
+					return true
+				}
+			}
+		}
+		for _, m := range f.Members {
+			if m == n {
+				return true
+			}
+		}
+		return false
+	}
+	label := func(x string) string {
+		if strings.Contains(x, "!") {
+			return "bad"
+		}
+		if direct(x) {
+			return x[:1]
+		}
+		return x[:1] + "~"
+	}
+	e, g := map[string]int{}, map[string]int{}
+	for _, x := range exp {
+		e[x]++
+	}
+	for _, x := range got {
+		g[x]++
+	}
+	var missing, extra, dup []string
+	for x := range e {
+		if g[x] == 0 {
+			missing = append(missing, label(x))
+		}
+	}
+	for x, k := range g {
+		if e[x] == 0 {
+			extra = append(extra, label(x))
+		} else if k > 1 {
+			dup = append(dup, x[:1])
+		}
+	}
+	sort.Strings(missing)
+	sort.Strings(extra)
+	sort.Strings(dup)
+	out := ""
+	if len(missing) > 0 {
+		out += "missing:" + strings.Join(uniq(missing), "")
+	}
+	if len(extra) > 0 {
+		out += "extra:" + strings.Join(uniq(extra), "")
+	}
+	if len(dup) > 0 {
+		out += "duplicate:" + strings.Join(uniq(dup), "")
+	}
+	if out == "" {
+		out = "order"
+	}
+	return out
 }
